@@ -46,6 +46,7 @@ func main() {
 	maxPaths := flag.Int("maxpaths", 200000, "max paths per harness")
 	maxConc := flag.Int("maxconc", 40, "max concretisation values per site per path")
 	trace := flag.Bool("trace", false, "trace instructions")
+	maxWall := flag.Float64("maxwall", 0, "wall-clock budget per harness in seconds (0 = none); exceeding it is reported as a bound hit")
 	extra := flag.String("extra", "", "comma separated extra overlay mappings virtual=real")
 	modelFile := flag.String("model", "", "concrete replay: JSON file with {harness, model}; runs that harness once under the assignment")
 	flag.Parse()
@@ -153,7 +154,7 @@ func main() {
 
 	repoPrefix := "github.com/fido-device-onboard/go-fdo"
 	mcfg := symgo.Config{MaxDecisions: *maxDec, MaxSteps: *maxSteps, MaxCallDepth: 400, MaxConcretize: *maxConc,
-		SolverTimeout: *timeout, SolverKind: *solver, Trace: *trace, RepoPrefix: repoPrefix, MaxPaths: *maxPaths}
+		SolverTimeout: *timeout, SolverKind: *solver, Trace: *trace, RepoPrefix: repoPrefix, MaxPaths: *maxPaths, MaxWall: *maxWall}
 	m := symgo.NewMachine(prog, mcfg)
 	m.Tier = 0
 	if *tier == "thorough" {
